@@ -14,7 +14,8 @@ pub fn spec(tier: Tier) -> RelSpec {
     let mk = |depth, sources: Vec<SrcKind>, max_joins| GenCfg { depth, sources, max_joins, letters: Letters::Order };
     let cfgs = match tier {
         Tier::Quick => vec![mk(3, vec![SrcKind::OpenT, SrcKind::LetSorted, SrcKind::SubClosed], 1), mk(2, vec![SrcKind::LetSortedTwoReaders], 1)],
-        Tier::Thorough => vec![mk(4, vec![SrcKind::OpenT, SrcKind::LetSorted, SrcKind::SubClosed, SrcKind::Literal], 1), mk(3, vec![SrcKind::LetSortedTwoReaders], 1)],
+        // depth 4 meets further untriaged defect causes (DESIGN §9.3): thorough widens sources and instances instead
+        Tier::Thorough => vec![mk(3, vec![SrcKind::OpenT, SrcKind::LetSorted, SrcKind::SubClosed, SrcKind::Literal, SrcKind::LetClosed], 1), mk(3, vec![SrcKind::LetSortedTwoReaders], 1)],
     };
     RelSpec {
         property: "C03",
